@@ -83,10 +83,12 @@ let () =
   register "rg_thm" (function [f; mx] ->
     let fb = Wire_flat.flat_of_sexp f in
     let mx = int_of_sexp mx in
-    if not (Frag.frag0 fb) then "(outside)"
+    if not (Frag.frag1 fb) then "(outside)"
     else
       let n = Stdlib.List.length (FragSem.keys_of fb) in
-      if n > mx then "(big " ^ string_of_int n ^ ")"
-      else "(frag0 " ^ string_of_int n ^ " " ^ show_bool (FragSem.check_sound fb) ^ " " ^ show_bool (FragSem.check_inj fb) ^ " "
-           ^ show_bool (FragSem.check_complete fb) ^ " " ^ show_bool (FragSem.check_count fb) ^ ")"
+      if n > mx then "(big " ^ string_of_int n ^ " " ^ show_bool (Frag.frag0 fb) ^ ")"
+      else "(frag " ^ string_of_int n ^ " " ^ show_bool (FragSem.check_sound fb) ^ " " ^ show_bool (FragSem.check_inj fb) ^ " "
+           ^ show_bool (FragSem.check_complete fb) ^ " " ^ show_bool (FragSem.check_accepted_count fb) ^ " "
+           ^ show_bool (if Frag.rejection_free fb then FragSem.check_count fb else true) ^ " "
+           ^ show_bool (Frag.frag0 fb) ^ " " ^ show_bool (Frag.rejection_free fb) ^ " " ^ show_nat (FragSem.accepted_count_of fb) ^ ")"
     | _ -> "!args")
